@@ -1,5 +1,6 @@
 (* C12 model driver. stdin: "<id>\t<program>" ; stdout: "<id>\t<A|R> <errors fixed> <errors as-found>"
-   S-expression syntax
+   Two input languages: (prog ...) for Model/C12_Checker.v, (prog2 ...) for Model/C12_Scopes.v (below).
+   S-expression syntax of (prog ...)
      prog  (prog (methods (m <name> ty stmt...) ...) (main stmt...))
      ty    int | str | bool | nil | (clos ty)
      expr  (lit ty) | (var <name>) | (clos e) | (par e) | (call e) | (meth <name>)
@@ -68,12 +69,77 @@ let prog_of = function
       { methods = List.map method_of ms; main = List.map stmt_of mn }
   | _ -> failwith "prog"
 
+(* ---- (prog2 ...) : the checker model with catch scopes (Model/C12_Scopes.v)
+     prog2 (prog2 (methods (m <name> ty (thr <c>...) stmt...) ...) (main stmt...))
+     ty    int | str | bool | nil
+     expr  (lit ty) | (var <n>) | (par e) | (call e) | (meth <n>) | (let <n> e) | (set <n> e) | (ret e) | (ex e)
+         | (throw <c>) | (do (body e...) (catch <c>...) (handler e...))
+         | (clos (params (<n> ty)...) (rt ty | none) (thr <c>... | none) e...)
+     (unused e) anywhere in an expression list marks the inserted initialiser: the driver also reports
+     whether it belongs to the class closed_value of theorem C12_unused_local_scoped *)
+module S = C12_Scopes
+
+let rec sty_of = function
+  | A "int" -> S.TInt
+  | A "str" -> S.TStr
+  | A "bool" -> S.TBool
+  | A "nil" -> S.TNil
+  | _ -> failwith "ty2"
+
+let thr_of l = List.map (function A c -> nm c | _ -> failwith "thr") l
+
+let inserted : S.expr list ref = ref []
+
+let rec sblock_of (l : sx list) : S.block =
+  match l with [] -> S.BNil | e :: r -> let e' = sexpr_of e in S.BCons (e', sblock_of r)
+
+and sexpr_of = function
+  | L [ A "lit"; t ] -> S.ELit (sty_of t)
+  | L [ A "var"; A x ] -> S.EVar (nm x)
+  | L [ A "par"; e ] -> S.EParen (sexpr_of e)
+  | L [ A "ex"; e ] -> sexpr_of e
+  | L [ A "call"; e ] -> S.ECall (sexpr_of e)
+  | L [ A "meth"; A m ] -> S.EMeth (nm m)
+  | L [ A "let"; A x; e ] -> S.ELet (nm x, sexpr_of e)
+  | L [ A "unused"; A x; e ] -> let v = sexpr_of e in inserted := v :: !inserted; S.ELet (nm x, v)
+  | L [ A "set"; A x; e ] -> S.EAssign (nm x, sexpr_of e)
+  | L [ A "ret"; e ] -> S.EReturn (sexpr_of e)
+  | L [ A "throw"; A c ] -> S.EThrow (nm c)
+  | L [ A "do"; L (A "body" :: b); L (A "catch" :: ct); L (A "handler" :: h) ] ->
+      S.EDo (sblock_of b, thr_of ct, sblock_of h)
+  | L (A "clos" :: L (A "params" :: ps) :: L [ A "rt"; rt ] :: L (A "thr" :: th) :: body) ->
+      let ps' = List.map (function L [ A x; t ] -> (nm x, sty_of t) | _ -> failwith "param") ps in
+      let rt' = (match rt with A "none" -> None | t -> Some (sty_of t)) in
+      let th' = (match th with [ A "none" ] -> None | l -> Some (thr_of l)) in
+      S.EClos (ps', rt', th', sblock_of body)
+  | _ -> failwith "expr2"
+
+let smethod_of = function
+  | L (A "m" :: A n :: t :: L (A "thr" :: u) :: body) -> (((nm n, sty_of t), thr_of u), sblock_of body)
+  | _ -> failwith "method2"
+
+let sprog_of = function
+  | L [ A "prog2"; L (A "methods" :: ms); L (A "main" :: mn) ] ->
+      { S.methods = List.map smethod_of ms; S.main = sblock_of mn }
+  | _ -> failwith "prog2"
+
 let rec int_of_nat n = match n with Datatypes.O -> 0 | Datatypes.S m -> 1 + int_of_nat m
 
 let handle (input : string) : string =
-  let p = prog_of (parse input) in
-  let en = int_of_nat (errors true p) and eo = int_of_nat (errors false p) in
-  (if en = 0 then "A" else "R") ^ " " ^ string_of_int en ^ " " ^ string_of_int eo
+  let sx = parse input in
+  match sx with
+  | L (A "prog2" :: _) ->
+      inserted := [];
+      let p = sprog_of sx in
+      let en = int_of_nat (S.errors true p) and eo = int_of_nat (S.errors false p) in
+      let cls = match !inserted with
+        | [] -> "-"
+        | l -> if List.for_all (fun v -> S.closed_value v) l then "closed" else "open" in
+      (if en = 0 then "A" else "R") ^ " " ^ string_of_int en ^ " " ^ string_of_int eo ^ " " ^ cls
+  | _ ->
+      let p = prog_of sx in
+      let en = int_of_nat (errors true p) and eo = int_of_nat (errors false p) in
+      (if en = 0 then "A" else "R") ^ " " ^ string_of_int en ^ " " ^ string_of_int eo
 
 let () =
   Zio.iter_lines (fun line ->
